@@ -10,11 +10,11 @@ CHECKS = {
  "C01": dict(tech="reference-model monitor (independent f64 scoring model) over every backend arm, dispatch arms forced through the hook; cross-arm equality oracle",
    text="Runtime monitoring: every backend arm (generic, SSE2, AVX2 direct; dispatcher forced to each x86 arm through the verif hook and unforced; 32 and 16 columns; DNA and protein) scores generated inputs covering all boundary length classes, and an independent f64 model plus a cross-arm equality oracle judge every value, every accessor and every row sub-range. Exploration is the right level: the property quantifies over unbounded inputs and SIMD kernels that only execution can exercise.",
    note="NEON arm not executable on this host; lengths above ~40k and widths above 64 not generated; model in harness/src/model.rs trusted", ref="DESIGN.md section 3 C01"),
- "C02": dict(tech="reference-model monitor over recorded scanner hit traces (exhaustive iteration, bounded), per forced dispatcher arm",
-   text="Runtime monitoring: scanners are iterated to exhaustion under each forced dispatcher arm for generated matrices (both wildcard regimes), lengths around L<M / L=M / block-boundary classes, block sizes and thresholds; the yielded multiset is compared with the f64 model set, with float-tie positions as don't-care.",
+ "C02": dict(tech="reference-model monitor over recorded scanner hit traces (exhaustive iteration, bounded) and trace checker over the hooked row log for setter histories, per forced dispatcher arm",
+   text="Runtime monitoring: scanners are iterated to exhaustion under each forced dispatcher arm for generated matrices (both wildcard regimes), lengths around L<M / L=M / block-boundary classes, block sizes and thresholds; the yielded multiset is compared with the f64 model set, with float-tie positions as don't-care. Reconfiguration histories (threshold() / block_size() between next() calls, caller-owned score buffer) are judged with an event log of the row ranges handed to the 8-bit kernel (verif-hooks row log): every hit found by a block under the threshold then in effect is yielded exactly once.",
    note="DNA only (the scanner is DNA-only); one open known finding on the Generic/Sse2 arms (u8 wrap); NEON not covered", ref="DESIGN.md section 3 C02"),
  "C03": dict(tech="reference-model monitor of Scanner::max after recorded next() prefixes, near-tie workloads, per forced dispatcher arm",
-   text="Runtime monitoring: for generated inputs incl. near-tie workloads (top scores within a few discretisation steps) a fresh scanner consumes k hits and max() is judged against the f64 model of the remaining hit set (None iff empty; otherwise valid, unconsumed, exact score, maximal).",
+   text="Runtime monitoring: for generated inputs incl. near-tie workloads (top scores within a few discretisation steps) a fresh scanner consumes k hits and max() is judged against the f64 model of the remaining hit set (None iff empty; otherwise valid, unconsumed, exact score, maximal); histories with threshold() / block_size() called between next() calls and finished by max() are judged with the hooked row log (candidates = buffered hits still meeting the threshold + rows not yet scored).",
    note="as C02", ref="DESIGN.md section 3 C03"),
  "C04": dict(tech="model-based monitor of operation histories on one striped buffer (cell map of the definition checked after every op), all striping arms",
    text="Runtime monitoring: random and boundary-enumerated operation histories (stripe / stripe_into reuse / configure_wrap / configure / clone) through generic (C in 1,2,4,16,32), AVX2, dispatch (forced arms) and to_striped; the complete matrix, look-ahead rows, len, wrap, Index and symbol counts are compared with the definition after every operation.",
